@@ -799,6 +799,16 @@ class ManifestRecursiveLoader:
                         # Manifest.gz next to the top-level Manifest)
                         if new_mpath in self.loaded_manifests:
                             continue
+                        # ...or onto a file that is not one of our
+                        # Manifests (reached via a directory symlink)
+                        new_syspath = os.path.join(self.root_directory,
+                                                   new_mpath)
+                        if (os.path.lexists(new_syspath)
+                                and os.path.realpath(new_syspath) not in (
+                                    os.path.realpath(os.path.join(
+                                        self.root_directory, x))
+                                    for x in self.loaded_manifests)):
+                            continue
 
                         # do the rename!
                         self.loaded_manifests[new_mpath] = m
